@@ -23,6 +23,7 @@
 #include "lib/zcklib.hpp"
 #include "gen/gens.hpp"
 #include "gen/mutate.hpp"
+#include "lib/tools.hpp"
 #include <sys/stat.h>
 
 using pbt::Ctx; using pbt::Bytes;
@@ -58,6 +59,14 @@ static std::string structural(Ctx &c, const gen::ZFile &z, Bytes &out, bool keep
 }
 
 static std::string run_unzck(const std::string &tools, const Bytes &file, Bytes &out, int *exit_code);
+// the verified dictionary (chunk 0) of a file whose header the reference accepts
+static bool dict_of(const Bytes &m, const ref::Header &h, Bytes &out) {
+    const ref::Entry &e = h.entries[0]; size_t off = h.total_size; if (m.size() < off || m.size() - off < e.comp_len) return false;
+    if (e.comp_len == 0) { out.clear(); return e.len == 0; }
+    if (ref::digest((int)h.chunk_hash_type, m.data() + off, (size_t)e.comp_len) != e.digest) return false;
+    if (h.comp_type == ref::COMP_NONE) { if (e.len != e.comp_len) return false; out.assign(m.begin() + off, m.begin() + off + e.comp_len); return true; }
+    std::string why; return ref::zstd_dec(m.data() + off, (size_t)e.comp_len, nullptr, e.len, out, why) && out.size() == e.len;
+}
 
 static void prop(Ctx &c) {
     gen::ZFileOpts o; o.max_chunks = c.tier ? 12 : 8; o.max_chunk = c.tier ? 20000 : 4000; o.allow_empty = false; o.big_rate = 10; o.big_huge = c.tier != 0;
@@ -99,6 +108,26 @@ static void prop(Ctx &c) {
     }
     // unzck on the same bytes
     const char *bdir = getenv("VERIF_BUILD");
+    if (bdir && c.gver >= 4 && c.draw(c.tier ? 8 : 24) == 0) {
+        // unzck's other outputs from the same altered bytes: --header (detached header = header + dictionary chunk, identifier ZHR1),
+        // --dict (the dictionary), -c (content on standard output).  Exit 0 => the output is what the altered file really holds
+        // (where the reference can derive it) or what the original holds; never something else, never a shortened copy.
+        uint64_t mode = c.draw(2); tools::Dir d("c02t"); d.put("f.zck", m);
+        tools::Run r = tools::run(tools::tool_path("unzck"), mode == 0 ? std::vector<std::string>{"--header", "f.zck"} : mode == 1 ? std::vector<std::string>{"--dict", "f.zck"} : std::vector<std::string>{"-c", "f.zck"}, d.path);
+        const char *mn = mode == 0 ? "unzck --header" : mode == 1 ? "unzck --dict" : "unzck -c"; c.label(std::string(mn) + (r.exit_code == 0 ? ":exit0" : ":fails"));
+        if (r.exit_code == 126) c.fail("tool-missing", "cannot run unzck");
+        if (r.abnormal()) c.label("unzck-abnormal-termination(C03's business)");
+        else if (r.exit_code == 0) {
+            auto zhr = [](const Bytes &f, const ref::Header &h, Bytes &out) { size_t need = h.total_size + (h.entries.empty() ? 0 : (size_t)h.entries[0].comp_len); if (f.size() < need) return false; out.assign(f.begin(), f.begin() + need); memcpy(out.data(), "\0ZHR1", 5); return true; };
+            if (mode == 0) { Bytes out = d.get("f.zhr"), w1, w2; bool h1 = pr.ok && pr.h.checksum_ok && zhr(m, pr.h, w1), h2 = zhr(z.file, z.h, w2);
+                if (!(h1 && out == w1) && !(h2 && out == w2)) c.fail("unzck-header-wrong", "unzck --header exited 0 and wrote " + std::to_string(out.size()) + " bytes; header + dictionary chunk of the " + (h1 ? "altered file are " + std::to_string(w1.size()) : "original file are " + std::to_string(w2.size())) + " bytes" + (h1 ? "" : " (the altered file does not hold a complete, checksum-correct header + dictionary)")); }
+            else if (mode == 1) { Bytes out = d.get("f.zdict"); bool ok = out == z.plain[0] || (R && out == dec.dict);
+                if (!ok && pr.ok && pr.h.checksum_ok && !pr.h.entries.empty()) { Bytes dd; if (dict_of(m, pr.h, dd) && out == dd) ok = true; }
+                if (!ok) c.fail("unzck-dict-wrong", "unzck --dict exited 0 and wrote " + std::to_string(out.size()) + " bytes that are neither the original dictionary (" + std::to_string(z.plain[0].size()) + " bytes) nor the verified dictionary of the altered file"); }
+            else { Bytes out(r.out.begin(), r.out.end()); const Bytes &want = R ? dec.content : (alt_ok && out == alt_content) ? alt_content : z.D;
+                if (out != want) c.fail(R ? "unzck-differs-from-reference" : "unzck-success-on-rejected-file", "unzck -c exited 0 and wrote " + std::to_string(out.size()) + " bytes to standard output, expected " + std::to_string(want.size())); }
+        }
+    }
     if (bdir && c.draw(c.tier ? 3 : 7) == 0) {
         Bytes out; int ec = -1; std::string e = run_unzck(std::string(bdir) + "/asan/tools/", m, out, &ec);
         c.label(ec == 0 ? "unzck-exit0" : "unzck-fails");
